@@ -311,6 +311,40 @@ func contractEconomy(ev *vlib.Evidence, prop, driver string, idx int) {
 			checkLedger("withdraw")
 		}
 	}
+	if useTimelocked && !failed && is("C07") {
+		// the owner of the time-locked wallet asks the pool for a withdrawal while earnings are
+		// booked on that wallet: the deposit cannot be read, so what is owed cannot be
+		// established - nothing may be paid and nothing may change
+		earned := big.NewInt(int64(20000 + r.Intn(100000)))
+		if cur, _ := w.RawStore.GetAccountBalance(store.Account(wt.Wallet)); cur.Credit.Sign() < 0 {
+			earned.Sub(earned, &cur.Credit) // what the wallet's client was billed is covered by the earnings
+		}
+		w.RawStore.AddAccountBalance(store.Account(wt.Wallet), earned)
+		stored, _ := w.RawStore.GetAccountBalance(store.Account(wt.Wallet))
+		chainBefore, _ := w.Contract.OnChain(wt.Wallet)
+		before := len(w.SettleLog())
+		werr := w.Signed(w.Local, wt, wt.Wallet, "pool_withdraw", nil)
+		log := w.SettleLog()
+		storedAfter, _ := w.RawStore.GetAccountBalance(store.Account(wt.Wallet))
+		chainAfter, _ := w.Contract.OnChain(wt.Wallet)
+		ev.Count("contract-economy-withdrawals-with-unreadable-deposit", 1)
+		trace = append(trace, fmt.Sprintf("withdraw time-locked wallet credit=%s -> err=%v settlements=%d", &stored.Credit, werr, len(log)-before))
+		paid := []string{}
+		for _, e := range log[before:] {
+			if e.Err == "" {
+				paid = append(paid, e.Amount.String())
+			}
+		}
+		switch {
+		case len(paid) > 0:
+			fail("paid-although-deposit-unreadable", map[string]interface{}{"paid": paid, "err": fmt.Sprint(werr), "credit": stored.Credit.String()})
+		case storedAfter.Credit.Cmp(&stored.Credit) != 0:
+			fail("refused-withdrawal-changed-balance", map[string]interface{}{"before": stored.Credit.String(), "after": storedAfter.Credit.String(), "err": fmt.Sprint(werr)})
+		case fmt.Sprint(chainBefore) != fmt.Sprint(chainAfter):
+			fail("refused-withdrawal-changed-deposit", map[string]interface{}{"before": fmt.Sprint(chainBefore), "after": fmt.Sprint(chainAfter), "err": fmt.Sprint(werr)})
+		}
+		w.RawStore.AddAccountBalance(store.Account(wt.Wallet), new(big.Int).Neg(earned))
+	}
 	ev.Case(desc+" "+strings.Join(trace, ";"), billed > 0)
 	ev.Count("contract-economy-sessions", 1)
 	if useTimelocked && os.Getenv("VERIF_DEBUG_CONTRACT") != "" {
